@@ -111,6 +111,12 @@ func c13combined(c *Ctx) {
 	c.MixState(uint64(len(sinks[0].Data)))
 }
 
+// flushOnlyWriter has Write and Flush (like bufio.Writer) but no Sync.
+type flushOnlyWriter struct{ flushes int }
+
+func (f *flushOnlyWriter) Write(b []byte) (int, error) { return len(b), nil }
+func (f *flushOnlyWriter) Flush() error                { f.flushes++; return errors.New("flush called") }
+
 func runC13(c *Ctx) {
 	if c.G.Chance(8) {
 		c13combined(c)
@@ -325,6 +331,11 @@ func c13lock(c *Ctx) {
 	sw := zapcore.AddSync(so)
 	if err := sw.Sync(); err != so.err || so.syncs != 1 {
 		c.Fail("C13: AddSync did not keep the existing Sync of a writer", "Sync returned %v after %d calls of the writer's own Sync", err, so.syncs)
+		return
+	}
+	fw := &flushOnlyWriter{}
+	if err := zapcore.AddSync(fw).Sync(); err != nil || fw.flushes != 0 {
+		c.Fail("C13: the Sync added by AddSync is not a no-op", "writer with Flush() but no Sync(): Sync returned %v after %d Flush calls", err, fw.flushes)
 		return
 	}
 	pw := &plainWriter{}
